@@ -49,6 +49,8 @@ static void c07_gen(Rng &rng, Plan &plan, bool thorough)
 		plan.setp("art0_block", bs[rng.below(5)]);
 		plan.setp("art0_kind", 0);
 	}
+	// a later Block whose header is well formed but whose chain the Block decoder's init refuses
+	if (rng.chance(120)) { plan.setp("art0_spoil_block", rng.range(2, 9)); plan.setp("art0_kind", 0); }
 	int corrupt = (int)rng.below(10);
 	if (corrupt < 4) gen_storage_faults(rng, plan, 2);
 	else if (corrupt == 4) { Op op("sfault"); op.set("kind", 4).set("pos", (int64_t)rng.below(1000000)); plan.ops.push_back(op); }
